@@ -125,7 +125,7 @@ func slots(e *m.Expr) []slot {
 var Mutations = []string{"replace-subexpr", "hetero-element", "hetero-key", "hetero-value", "composite-key", "duplicate-field",
 	"unknown-field", "subscript-non-container", "non-numeric-index", "wrong-key-type", "arity-plus", "arity-minus",
 	"undefined-var", "reserved-var", "optional-for-payload", "inconsistent-typevar", "call-non-function", "empty-literal-mix",
-	"member-on-non-object", "cond-not-bool", "payload-for-optional"}
+	"member-on-non-object", "cond-not-bool", "payload-for-optional", "same-variable-twice-then-mismatch"}
 
 // Mutate applies one mutation to a copy of e and returns it with the
 // mutation's name ("" if the mutation found no place to apply).
@@ -304,6 +304,25 @@ func (g *G) Mutate(e *m.Expr) (*m.Expr, string) {
 	case "member-on-non-object":
 		return wrapTop(func(x *m.Expr) *m.Expr {
 			return m.Member(g.literal(pick(g.T, "nobj", []*m.Type{m.Num, m.Str, m.List(m.Num), m.Map(m.Str, m.Num)}), 1), "a")
+		})
+	case "same-variable-twice-then-mismatch":
+		// one composite-typed variable mentioned twice in the first element (the
+		// same type object at two positions), a second element that agrees at the
+		// first position and differs at the later one
+		return wrapTop(func(x *m.Expr) *m.Expr {
+			T := pick(g.T, "sharedty", []*m.Type{m.List(m.Num), m.Map(m.Str, m.Num), m.Obj(m.Field{Name: "p", T: m.Num}), m.List(m.List(m.Str))})
+			U := pick(g.T, "otherty", []*m.Type{m.List(m.Str), m.Map(m.Str, m.Bool), m.Obj(m.Field{Name: "p", T: m.Str}), m.List(m.Num), m.Num})
+			v := g.Var(T)
+			first := m.ObjE([]string{"a", "b"}, []*m.Expr{v, v.Clone()})
+			second := m.ObjE([]string{"a", "b"}, []*m.Expr{g.literal(T, 1), g.expr(U, 1)})
+			switch g.intn("sharedform", 3) {
+			case 0:
+				return m.Member(m.Index(m.ListE(first, second), m.Lit("num", "1")), "b")
+			case 1:
+				return m.Index(m.MapE(m.Lit("str", `"k"`), first, m.Lit("str", `"j"`), second), m.Lit("str", `"j"`))
+			default:
+				return m.Call("if", m.Lit("bool", "true"), first, second)
+			}
 		})
 	case "payload-for-optional":
 		// get(x, d) where x is not optional
